@@ -267,6 +267,9 @@ func (fx *fixture) leakCheck(when string) {
 		return
 	}
 	fx.origin.ReleaseStalls() // nothing of ours is outstanding any more
+	if t := fx.be(); t != nil {
+		t.reset()
+	}
 	if devTimings {
 		defer func(t time.Time) { fx.r.CountN("ms.leakcheck", time.Since(t).Milliseconds()) }(time.Now())
 	}
